@@ -473,6 +473,32 @@ impl Impl {
         }
     }
     /// `<wildcard lookup>/<exact lookup>/<served>/<names_for_sni>` for one probe
+    /// Everything the public API shows of the resolver (C07: an op answered with an
+    /// error must leave this untouched): which asset fingerprints are stored, the
+    /// whole trie (`domains.to_hashmap()`: key -> fingerprint), and for every name
+    /// the wildcard lookup, the exact lookup and `names_for_sni`.
+    fn view(&self, names: &BTreeSet<Vec<u8>>) -> Vec<String> {
+        catch_unwind(AssertUnwindSafe(|| {
+            let mut v = vec![];
+            {
+                let r = self.res.0.lock().unwrap_or_else(|p| p.into_inner());
+                for (i, a) in assets().certs.iter().enumerate() {
+                    if r.get_certificate(&a.fp).is_some() {
+                        v.push(format!("stored {i}"));
+                    }
+                }
+                let mut trie: Vec<String> =
+                    r.domains.to_hashmap().iter().map(|(k, fp)| format!("trie {} -> {}", hx(k), self.id_of(fp))).collect();
+                trie.sort();
+                v.extend(trie);
+            }
+            for n in names {
+                v.push(format!("look {} = {}", hx(n), self.probe_inner(n).0));
+            }
+            v
+        }))
+        .unwrap_or_else(|_| vec!["PANIC".into()])
+    }
     fn probe(&self, n: &[u8]) -> (String, Option<usize>, bool) {
         // the lookups are sozu code: a panic there is reported by the caller as a finding
         catch_unwind(AssertUnwindSafe(|| self.probe_inner(n))).unwrap_or_else(|_| ("PANIC".into(), None, false))
@@ -657,6 +683,50 @@ fn authority_variants(rng: &mut Rng, base: &str) -> String {
 // retried, then counted as `inconclusive` in the distribution, and fails the run
 // (class `harness-inconclusive`) only when more than 5 % of the cases end so.
 
+/// `--prop C07`: the same interpreter, a generator centred on commands that can fail
+/// late, and only the C07 oracles (an error leaves no trace; a success touches only
+/// what the command names); the C17 oracles stay with `--prop C17`.
+static PROP_C07: std::sync::atomic::AtomicBool = std::sync::atomic::AtomicBool::new(false);
+fn c07() -> bool {
+    PROP_C07.load(std::sync::atomic::Ordering::SeqCst)
+}
+const C07_CLASSES: &[&str] = &[
+    "resolver-error-left-trace",
+    "resolver-ok-touched-unnamed",
+    "worker-error-left-trace",
+    "worker-ok-touched-unnamed",
+    "resolver-panics",
+    "resolver-lookup-panics",
+    "certificate-name-panics-worker",
+    "worker-died",
+];
+fn keep_prop_oracles(mut r: ImplRun) -> ImplRun {
+    if c07() {
+        r.oracle.retain(|(c, _)| C07_CLASSES.contains(&c.as_str()));
+    }
+    r
+}
+
+/// the names a view looks up: every name mentioned so far, its wildcard sibling and
+/// an instance of every wildcard
+fn note_names(seen: &mut BTreeSet<Vec<u8>>, names: &[Vec<u8>]) {
+    for n in names {
+        if n.is_empty() || n.len() > 200 {
+            continue;
+        }
+        let low = n.to_ascii_lowercase();
+        for x in [n.clone(), low.clone()] {
+            if x.starts_with(b"*.") {
+                let mut inst = b"zz".to_vec();
+                inst.extend_from_slice(&x[1..]);
+                seen.insert(inst);
+            }
+            seen.insert(wild_of(&x));
+            seen.insert(x);
+        }
+    }
+}
+
 static CASES_RUN: std::sync::atomic::AtomicU64 = std::sync::atomic::AtomicU64::new(0);
 static CASES_INCONCLUSIVE: std::sync::atomic::AtomicU64 = std::sync::atomic::AtomicU64::new(0);
 
@@ -731,6 +801,9 @@ impl Area for Tls {
         "tls"
     }
     fn rule(&self) -> String {
+        if c07() {
+            return c07_rule(false);
+        }
         let a = assets();
         format!(
             "histories of add/remove/replace (real replace_certificate, and its two halves with a probe between) on the real CertificateResolver, \
@@ -741,6 +814,9 @@ impl Area for Tls {
         )
     }
     fn cases(&self, thorough: bool) -> u64 {
+        if c07() {
+            return if thorough { 8_000 } else { 700 };
+        }
         if thorough {
             20_000
         } else {
@@ -748,6 +824,9 @@ impl Area for Tls {
         }
     }
     fn corpus(&self) -> Vec<Vec<String>> {
+        if c07() {
+            return c07_corpus();
+        }
         let h = |s: &str| hx(s.as_bytes());
         let s = |v: Vec<String>| v;
         let (www, apex, wild, test, deep) =
@@ -841,6 +920,9 @@ impl Area for Tls {
         ]
     }
     fn gen(&self, rng: &mut Rng, thorough: bool) -> Vec<String> {
+        if c07() {
+            return gen_c07(rng, thorough, false);
+        }
         if rng.chance(1, 5) {
             return self.gen_sni_case(rng);
         }
@@ -1001,6 +1083,7 @@ impl Tls {
         let mut mutation_after_overlap = false;
         let mut sni_true = false;
         let mut sni_false = false;
+        let mut seen: BTreeSet<Vec<u8>> = BTreeSet::new();
         let addr = SocketAddress::new_v4(127, 0, 0, 1, 8443);
 
         for (opi, op) in ops.iter().enumerate() {
@@ -1014,6 +1097,8 @@ impl Tls {
                 grid = w[1..].iter().map(|x| unhex(x)).collect();
                 dead = false;
                 reference = Reference::default();
+                seen.clear();
+                note_names(&mut seen, &grid);
                 let d: Vec<String> = grid.iter().map(|n| im.probe(n).0).collect();
                 r.out.push(format!("new | {}", d.join(" ")));
                 continue;
@@ -1077,6 +1162,11 @@ impl Tls {
             }
             r.tags.push(format!("op:{}", w[0]));
             let before = reference.clone();
+            let mutation = matches!(w[0], "add" | "addbad" | "rm" | "repl" | "replsplit" | "replbad");
+            if let Some(nf) = w.get(match w[0] { "add" => 3, "repl" | "replsplit" => 4, _ => 99 }) {
+                note_names(&mut seen, &parse_names(nf));
+            }
+            let view_before = if mutation { im.view(&seen) } else { vec![] };
             let mut mid_dump: Option<(Vec<String>, Reference)> = None;
             // ---- run the op on the real resolver
             let res: Result<String, ()> = catch_unwind(AssertUnwindSafe(|| -> String {
@@ -1321,6 +1411,60 @@ impl Tls {
                 r.out.push(s);
                 continue;
             }
+            // ---- C07: an error leaves no trace, a success touches only what the command names
+            if mutation {
+                let view_after = im.view(&seen);
+                if s == "err" {
+                    r.tags.push(format!("err:{}", w[0]));
+                    if view_after != view_before {
+                        let diff: Vec<String> = view_after.iter().filter(|x| !view_before.contains(x)).map(|x| format!("+{x}"))
+                            .chain(view_before.iter().filter(|x| !view_after.contains(x)).map(|x| format!("-{x}"))).take(6).collect();
+                        r.oracle.push(("resolver-error-left-trace".into(), format!("`{op}` answered Err but the resolver changed: {}", diff.join("; "))));
+                    }
+                } else {
+                    // ids the command names
+                    let mut named: Vec<String> = vec![];
+                    match w[0] {
+                        "add" => named.push(w[1].to_string()),
+                        "rm" => named.extend(fp_ref(w[1]).and_then(|f| f.id).map(|i| i.to_string())),
+                        "repl" | "replsplit" => {
+                            named.push(w[2].to_string());
+                            named.extend(fp_ref(w[1]).and_then(|f| f.id).map(|i| i.to_string()));
+                        }
+                        _ => {}
+                    }
+                    let parse = |v: &[String]| -> (BTreeSet<String>, BTreeMap<String, String>) {
+                        let mut st = BTreeSet::new();
+                        let mut tr = BTreeMap::new();
+                        for l in v {
+                            let t: Vec<&str> = l.split(' ').collect();
+                            if t[0] == "stored" && t.len() == 2 {
+                                st.insert(t[1].to_string());
+                            } else if t[0] == "trie" && t.len() == 4 {
+                                tr.insert(t[1].to_string(), t[3].to_string());
+                            }
+                        }
+                        (st, tr)
+                    };
+                    let (sb, tb) = parse(&view_before);
+                    let (sa, ta) = parse(&view_after);
+                    let mut bad: Option<String> = None;
+                    for i in sb.symmetric_difference(&sa) {
+                        if !named.contains(i) {
+                            bad = Some(format!("stored {i}"));
+                        }
+                    }
+                    for k in tb.keys().chain(ta.keys()) {
+                        let (x, y) = (tb.get(k), ta.get(k));
+                        if x != y && !x.map(|i| named.contains(i)).unwrap_or(false) && !y.map(|i| named.contains(i)).unwrap_or(false) {
+                            bad = Some(format!("trie {k}: {x:?} -> {y:?}"));
+                        }
+                    }
+                    if let Some(b) = bad {
+                        r.oracle.push(("resolver-ok-touched-unnamed".into(), format!("`{op}` answered Ok and changed `{b}`, which concerns none of the certificates it names {named:?}")));
+                    }
+                }
+            }
             // ---- probe the grid, evaluate the oracles
             let mut fields = vec![];
             let mut final_cov = vec![];
@@ -1458,7 +1602,10 @@ impl Tls {
         if mutation_after_overlap || (sni_true && sni_false) {
             r.nontrivial = true;
         }
-        r
+        if c07() {
+            r.nontrivial = r.tags.iter().any(|t| t.starts_with("err:"));
+        }
+        keep_prop_oracles(r)
     }
 }
 
@@ -1602,12 +1749,18 @@ impl Area for TlsE2e {
         "tls-e2e"
     }
     fn rule(&self) -> String {
+        if c07() {
+            return c07_rule(true);
+        }
         format!(
             "a real worker per case (HTTPS listener with strict SNI binding, one frontend per probe host, one shared backend), histories of AddCertificate / RemoveCertificate / ReplaceCertificate over the command channel (fingerprints in lower / UPPER / mixed-case hex, or undecodable) with the {} PEM assets under overridden lower-case names (exact / wildcard, overlapping) and expirations; after every op every grid name (<=6) is probed by a real TLS client: the leaf certificate presented (or the default certificate); req ops send an HTTP/1.1 request whose Host is the SNI, a sibling covered by the same wildcard, the apex, another tenant, with port / upper case / trailing dot: 200 = routed to the backend, 421 = refused; compared line by line with the model (resolve + snapshot + gate); non-trivial = two loaded certificates competed for a probe and a remove/replace followed; distinct = distinct op sequence",
             assets().certs.len()
         )
     }
     fn cases(&self, thorough: bool) -> u64 {
+        if c07() {
+            return if thorough { 300 } else { 50 };
+        }
         if thorough {
             400
         } else {
@@ -1618,6 +1771,21 @@ impl Area for TlsE2e {
         lines_agree_any(a, b)
     }
     fn corpus(&self) -> Vec<Vec<String>> {
+        if c07() {
+            let h = |s: &str| hx(s.as_bytes());
+            let (www, apex) = (h("www.example.org"), h("example.org"));
+            return vec![vec![
+                format!("newe {www} {apex}"),
+                format!("add 0 100 {www} -"),
+                format!("repl 3 1 200 {www},{apex} -"),
+                format!("repl 3:U 0 200 {www} -"),
+                format!("repl 0 2 300 {www},{} -", h(".bad.example.org")),
+                format!("repl x:n 2 50 {apex} -"),
+                format!("rm 5"),
+                format!("rm x:o"),
+                format!("add 4 10 {apex},{} -", h("re/")),
+            ]];
+        }
         let h = |s: &str| hx(s.as_bytes());
         let (www, apex, wild, test, deep) =
             (h("www.example.org"), h("example.org"), h("*.example.org"), h("test.example.org"), h("a.b.example.org"));
@@ -1647,6 +1815,9 @@ impl Area for TlsE2e {
         ]]
     }
     fn gen(&self, rng: &mut Rng, _thorough: bool) -> Vec<String> {
+        if c07() {
+            return gen_c07(rng, false, true);
+        }
         let nassets = assets().certs.len().max(2) as u64;
         let bases = ["example.org", "ex.io"];
         let b = *rng.pick(&bases);
@@ -1782,6 +1953,29 @@ fn e2e_setup(grid: &[Vec<u8>]) -> Result<(Worker, SocketAddr), String> {
     Ok((wk, l))
 }
 
+/// the worker's own view of the listener's certificates: `QueryCertificatesFromWorkers`
+/// without filter = every trie key -> fingerprint (`HttpsProxy::query_all_certificates`)
+fn worker_cert_view(wk: &mut Worker, l: SocketAddr) -> Result<BTreeMap<String, String>, String> {
+    use sozu_command_lib::proto::command::{response_content::ContentType, QueryCertificatesFilters};
+    let resp = wk
+        .request(RequestType::QueryCertificatesFromWorkers(QueryCertificatesFilters { domain: None, fingerprint: None }))
+        .map_err(|e| format!("worker-unresponsive: query: {e:?}"))?;
+    let mut m = BTreeMap::new();
+    let ids: BTreeMap<String, usize> = assets().certs.iter().enumerate().map(|(i, a)| (a.fp.to_string(), i)).collect();
+    if let Some(ContentType::CertificatesByAddress(list)) = resp.content.and_then(|c| c.content_type) {
+        for by in list.certificates {
+            if SocketAddr::from(by.address) != l {
+                continue;
+            }
+            for cs in by.certificate_summaries {
+                let id = ids.get(&cs.fingerprint).map(|i| i.to_string()).unwrap_or_else(|| format!("?{}", &cs.fingerprint[..8.min(cs.fingerprint.len())]));
+                m.insert(cs.domain, id);
+            }
+        }
+    }
+    Ok(m)
+}
+
 /// `Err(why)` = the case is inconclusive (set-up failure after retries)
 fn run_e2e(ops: &[String]) -> Result<ImplRun, String> {
     {
@@ -1792,6 +1986,8 @@ fn run_e2e(ops: &[String]) -> Result<ImplRun, String> {
         let mut worker: Option<(Worker, SocketAddr)> = None;
         let mut overlap = false;
         let mut after = false;
+        let mut last_fields: Vec<String> = vec![];
+        let mut any_err = false;
         for op in ops {
             let w: Vec<&str> = op.split_whitespace().collect();
             if w[0] == "newe" {
@@ -1816,6 +2012,7 @@ fn run_e2e(ops: &[String]) -> Result<ImplRun, String> {
                     fields.push(served_field(l, n, a)?);
                 }
                 r.out.push(format!("new | {}", fields.join(" ")));
+                last_fields = fields;
                 continue;
             }
             let Some((wk, l)) = worker.as_mut() else {
@@ -1825,6 +2022,8 @@ fn run_e2e(ops: &[String]) -> Result<ImplRun, String> {
             let l = *l;
             r.tags.push(format!("op:{}", w[0]));
             let before = reference.clone();
+            let cert_op = matches!(w[0], "add" | "rm" | "repl");
+            let wview_before = if cert_op { worker_cert_view(wk, l)? } else { BTreeMap::new() };
             let mut status_of = |wk: &mut Worker, req: RequestType| -> String {
                 match wk.request(req) {
                     Ok(resp) if resp.status == ResponseStatus::Ok as i32 => "ok".into(),
@@ -1935,7 +2134,7 @@ fn run_e2e(ops: &[String]) -> Result<ImplRun, String> {
                 let class = if bad && matches!(w[0], "add" | "repl") { "certificate-name-panics-worker" } else { "worker-died" };
                 r.oracle.push((class.into(), format!("e2e `{}` with names {:?}: worker thread dead: {m:?}", w[0], names.iter().map(|n| String::from_utf8_lossy(n).to_string()).collect::<Vec<_>>())));
                 r.out.push("panic".into());
-                return Ok(r);
+                return Ok(keep_prop_oracles(r));
             }
             if res.starts_with("rig:") {
                 // the worker thread is alive but its command channel gave no answer in 10 s
@@ -1988,13 +2187,57 @@ fn run_e2e(ops: &[String]) -> Result<ImplRun, String> {
             if overlap && matches!(w[0], "rm" | "repl") {
                 after = true;
             }
+            // ---- C07 on the worker: FAILURE => nothing changed; OK => only what the command names
+            if cert_op {
+                let wview_after = worker_cert_view(wk, l)?;
+                if !wview_after.is_empty() {
+                    r.tags.push("worker-view:non-empty".into());
+                }
+                if res == "err" {
+                    any_err = true;
+                    r.tags.push(format!("err:{}", w[0]));
+                    if wview_after != wview_before || fields != last_fields {
+                        let mut diff: Vec<String> = vec![];
+                        for k in wview_before.keys().chain(wview_after.keys()) {
+                            if wview_before.get(k) != wview_after.get(k) {
+                                diff.push(format!("{k}: {:?} -> {:?}", wview_before.get(k), wview_after.get(k)));
+                            }
+                        }
+                        diff.dedup();
+                        for (i, n) in grid.iter().enumerate() {
+                            if fields.get(i) != last_fields.get(i) {
+                                diff.push(format!("TLS client for {}: {:?} -> {:?}", String::from_utf8_lossy(n), last_fields.get(i), fields.get(i)));
+                            }
+                        }
+                        r.oracle.push(("worker-error-left-trace".into(), format!("`{op}` answered FAILURE but the worker's certificates changed: {}", diff.join("; "))));
+                    }
+                } else if res == "ok" {
+                    let mut named: Vec<String> = vec![];
+                    match w[0] {
+                        "add" => named.push(w[1].to_string()),
+                        "rm" => named.extend(fp_ref(w[1]).and_then(|f| f.id).map(|i| i.to_string())),
+                        _ => {
+                            named.push(w[2].to_string());
+                            named.extend(fp_ref(w[1]).and_then(|f| f.id).map(|i| i.to_string()));
+                        }
+                    }
+                    for k in wview_before.keys().chain(wview_after.keys()) {
+                        let (x, y) = (wview_before.get(k), wview_after.get(k));
+                        if x != y && !x.map(|i| named.contains(i)).unwrap_or(false) && !y.map(|i| named.contains(i)).unwrap_or(false) {
+                            r.oracle.push(("worker-ok-touched-unnamed".into(), format!("`{op}` answered OK and changed {k}: {x:?} -> {y:?}, none of the certificates it names {named:?}")));
+                            break;
+                        }
+                    }
+                }
+            }
+            last_fields = fields.clone();
             r.out.push(format!("{res} | {}", fields.join(" ")));
         }
         if let Some((mut wk, _)) = worker {
             wk.stop();
         }
-        r.nontrivial = after;
-        Ok(r)
+        r.nontrivial = if c07() { any_err } else { after };
+        Ok(keep_prop_oracles(r))
     }
 }
 
@@ -2012,6 +2255,156 @@ fn served_field(l: SocketAddr, n: &[u8], a: &Assets) -> Result<String, String> {
         Err(e) if e.starts_with(TRANSIENT) => Err(e),
         Err(e) => Ok(format!("N({})", e.replace(' ', "_"))),
     }
+}
+
+// ------------------------------------------------------------------- C07 --
+
+fn c07_rule(e2e: bool) -> String {
+    format!(
+        "C07 on the worker's certificate store ({}): histories over 2-5 of the {} PEM assets where about half of the commands are built to fail, and to fail late: replace with (valid new certificate not loaded, well-formed absent old fingerprint), (new already loaded, absent old), (refused names, present old), (unparsable PEM, present old), (undecodable / empty / case-variant old fingerprint), idempotent replace, remove of an absent / undecodable fingerprint, add with a refused name after valid ones, add of an unparsable PEM, re-add; oracle independent of the model: after a command answered with an error the whole observable view (stored fingerprints, every trie key -> fingerprint, wildcard and exact lookup and names_for_sni of every name mentioned so far and of its wildcard sibling / instance{}) equals the view before; after a command answered Ok only entries of the certificates the command names changed; non-trivial = at least one command of the case was answered with an error; distinct = distinct op sequence",
+        if e2e { "real worker: HttpsProxy::notify behind Server, commands over the channel" } else { "real CertificateResolver in-process" },
+        assets().certs.len(),
+        if e2e { "; on the worker: QueryCertificatesFromWorkers + the certificate a TLS client is presented for every grid name" } else { "" }
+    )
+}
+
+fn c07_corpus() -> Vec<Vec<String>> {
+    let h = |s: &str| hx(s.as_bytes());
+    let (www, apex, wild) = (h("www.example.org"), h("example.org"), h("*.example.org"));
+    vec![
+        // the late-error shapes, one by one
+        vec![
+            format!("new {www} {apex}"),
+            format!("add 0 100 {www}"),
+            format!("repl 3 1 200 {www},{apex} -"),   // valid new not loaded, absent old
+            format!("repl 3:U 0 200 {www} -"),        // new already loaded, absent old
+            format!("repl 0 2 300 {www},{} -", h(".bad.example.org")), // refused name, present old
+            format!("replbad 0"),                     // unparsable PEM, present old
+            format!("repl x:n 2 50 {wild} -"),        // undecodable old: new added, nothing removed
+            format!("rm 5"),                          // absent
+            format!("rm x:o"),
+            format!("add 4 10 {apex},{} -", h("re/")),
+            "addbad".to_string(),
+            format!("add 0 999 {apex} -"),            // re-add under other names: ignored
+        ],
+    ]
+}
+
+/// `e2e`: ops for the worker run (`newe`, no `replsplit` / `addbad` / `replbad`-only shapes the channel cannot carry)
+fn gen_c07(rng: &mut Rng, thorough: bool, e2e: bool) -> Vec<String> {
+    let nassets = assets().certs.len().max(2) as u64;
+    let b = *rng.pick(&["example.org", "ex.io"]);
+    let uni: Vec<Vec<u8>> = [b.to_string(), format!("www.{b}"), format!("api.{b}"), format!("*.{b}"), format!("*.api.{b}"), format!("a.api.{b}")]
+        .iter()
+        .map(|s| s.as_bytes().to_vec())
+        .collect();
+    let bad_names: Vec<Vec<u8>> = [format!(".{b}"), format!("re/.{b}"), format!("x/{b}"), ".".to_string()].iter().map(|s| s.as_bytes().to_vec()).collect();
+    let mut grid: Vec<Vec<u8>> = [b.to_string(), format!("www.{b}"), format!("zz.{b}"), format!("api.{b}"), format!("a.api.{b}"), format!("q.a.api.{b}")]
+        .iter()
+        .map(|s| s.as_bytes().to_vec())
+        .collect();
+    rng.shuffle(&mut grid);
+    grid.truncate(if e2e { 4 } else { 6 });
+    let mut ops = vec![format!("{} {}", if e2e { "newe" } else { "new" }, grid.iter().map(|g| hx(g)).collect::<Vec<_>>().join(" "))];
+    let k = rng.range(3, 5).min(nassets);
+    let mut pool: Vec<u64> = (0..nassets).collect();
+    rng.shuffle(&mut pool);
+    pool.truncate(k as usize);
+    let exps: [i64; 4] = [10, 20, 20, 30];
+    let mut reference = Reference::default();
+    let len = rng.range(5, if thorough { 24 } else { 14 });
+    for _ in 0..len {
+        let stored: Vec<usize> = reference.loaded.keys().copied().collect();
+        let absent: Vec<usize> = pool.iter().map(|x| *x as usize).filter(|i| !reference.loaded.contains_key(i)).collect();
+        let pick_absent = |rng: &mut Rng| if absent.is_empty() { *rng.pick(&pool) as usize } else { *rng.pick(&absent) };
+        let pick_stored = |rng: &mut Rng| if stored.is_empty() { *rng.pick(&pool) as usize } else { *rng.pick(&stored) };
+        let exp = *rng.pick(&exps);
+        let mut names = pick_names(rng, &uni);
+        match rng.below(20) {
+            0..=4 => {
+                // plain add (sometimes a re-add)
+                let id = if rng.chance(1, 5) { pick_stored(rng) } else { pick_absent(rng) };
+                ops.push(format!("add {id} {exp} {} -", names_field(&names)));
+                reference.add(id, &names, exp);
+            }
+            5 => {
+                // add with a refused name after valid ones
+                names.push(rng.pick(&bad_names).clone());
+                let id = pick_absent(rng);
+                ops.push(format!("add {id} {exp} {} -", names_field(&names)));
+            }
+            6 => {
+                if e2e {
+                    ops.push(format!("rm {}", bad_fp_tok(rng)));
+                } else {
+                    ops.push("addbad".into());
+                }
+            }
+            7 | 8 => {
+                let id = if rng.chance(1, 2) { pick_stored(rng) } else { pick_absent(rng) };
+                ops.push(format!("rm {}", fp_tok(rng, id)));
+                reference.remove(id);
+            }
+            9 => ops.push(format!("rm {}", bad_fp_tok(rng))),
+            10..=12 => {
+                // valid new certificate not loaded, well-formed absent old fingerprint
+                let old = pick_absent(rng);
+                let mut id = pick_absent(rng);
+                if id == old {
+                    id = *rng.pick(&pool) as usize;
+                }
+                if rng.chance(1, 2) {
+                    // take over names that are being served
+                    if let Some(c) = stored.first().and_then(|i| reference.loaded.get(i)) {
+                        names = c.names.clone();
+                    }
+                }
+                ops.push(format!("repl {} {id} {exp} {} -", fp_tok(rng, old), names_field(&names)));
+                reference.replace(Some(old), id, &names, exp);
+            }
+            13 => {
+                // new already loaded, absent old
+                let old = pick_absent(rng);
+                let id = pick_stored(rng);
+                ops.push(format!("repl {} {id} {exp} {} -", fp_tok(rng, old), names_field(&names)));
+                reference.replace(Some(old), id, &names, exp);
+            }
+            14 | 15 => {
+                // refused names / unparsable PEM with a present old
+                let old = pick_stored(rng);
+                if rng.chance(1, 2) || e2e {
+                    names.push(rng.pick(&bad_names).clone());
+                    let id = pick_absent(rng);
+                    ops.push(format!("repl {} {id} {exp} {} -", fp_tok(rng, old), names_field(&names)));
+                } else {
+                    ops.push(format!("replbad {old}"));
+                }
+            }
+            16 => {
+                // undecodable / empty old: the new one is added, nothing removed
+                let id = pick_absent(rng);
+                ops.push(format!("repl {} {id} {exp} {} -", bad_fp_tok(rng), names_field(&names)));
+                reference.replace(None, id, &names, exp);
+            }
+            17 => {
+                // idempotent, any spelling
+                let id = pick_stored(rng);
+                ops.push(format!("repl {} {id} {exp} {} -", fp_tok(rng, id), names_field(&names)));
+            }
+            _ => {
+                // ordinary renewal
+                let old = pick_stored(rng);
+                let id = pick_absent(rng);
+                if let Some(c) = reference.loaded.get(&old) {
+                    names = c.names.clone();
+                }
+                let verb = if !e2e && rng.chance(1, 3) { "replsplit" } else { "repl" };
+                ops.push(format!("{verb} {} {id} {exp} {} -", fp_tok(rng, old), names_field(&names)));
+                reference.replace(Some(old), id, &names, exp);
+            }
+        }
+    }
+    ops
 }
 
 fn selfcheck() -> Vec<String> {
@@ -2078,6 +2471,9 @@ fn main() {
             println!("FAIL oracle fingerprint-depends-on-override {n}");
         }
         std::process::exit(1);
+    }
+    if args.prop == "C07" {
+        PROP_C07.store(true, std::sync::atomic::Ordering::SeqCst);
     }
     let e2e = args.extra.get("mode").map(|m| m == "e2e").unwrap_or(false);
     let code = if e2e {
